@@ -197,6 +197,19 @@ CHECKS = {
         "Cases with |z| within 1e-4 of the threshold are skipped (none occur for the chosen alphabet). Channel centres are the library's float32 labels.",
         "DESIGN.md section 3 C16",
     ),
+    "C18": (
+        "exploration",
+        "exhaustive enumeration of (start,nsamps), gulps and reductions on synthesised PSRFITS layouts vs an independent decoder",
+        "Search-mode PSRFITS files are synthesised for 4 layouts x 2 depths x NSBLK {3,4,5}/{4,6} x 2-3(4) sub-integrations x both channel "
+        "orders with non-trivial scales/offsets/weights/zero offset. For every file the reader reads in full: the whole read equals an "
+        "independent decode; every (start,nsamps) (aligned or not, out-of-range must raise) equals the corresponding columns; read_plan for "
+        "every gulp x sub-range x skipback in {0, <=gulp/2} delivers each sample exactly once; collapse/bandpass/read_chan/dedisperse/"
+        "compute_stats for 6 gulps equal the same over a SIGPROC file with the same samples; header quantities are plain numbers in MHz/s/MJD "
+        "whose channel labels describe the returned (descending) rows.",
+        "Layouts the reader cannot read in full (1-pol intensity: squeeze() drops the polarisation axis; 2-pol PPQQ: no branch) are outside the "
+        "statement's antecedent and reported as out_of_scope. Tiny files (<= 20 samples, 4 channels).",
+        "DESIGN.md section 3 C18",
+    ),
 }
 
 ENGINES = [
